@@ -276,7 +276,13 @@ func (l *Lexer) readString(delimiter byte) string {
 						l.ReadChar() // consume second hex digit
 						// Convert hex digits to byte value
 						value := hexDigitValue(hex1)*16 + hexDigitValue(hex2)
-						result.WriteByte(byte(value))
+						if isSafeDecoded(value) {
+							result.Write(encodeUTF8(value))
+						} else {
+							result.WriteString("\\x")
+							result.WriteByte(hex1)
+							result.WriteByte(hex2)
+						}
 						continue
 					}
 				}
@@ -343,9 +349,12 @@ func (l *Lexer) readString(delimiter byte) string {
 					}
 
 					// Convert to UTF-8 and add to result
-					utf8Bytes := encodeUTF8(value)
-					for _, b := range utf8Bytes {
-						result.WriteByte(b)
+					if isSafeDecoded(value) {
+						result.Write(encodeUTF8(value))
+					} else {
+						result.WriteString("\\u{")
+						result.Write(hexDigits)
+						result.WriteByte('}')
 					}
 					continue
 				} else {
@@ -365,9 +374,11 @@ func (l *Lexer) readString(delimiter byte) string {
 									// Convert 4 hex digits to Unicode value
 									value := hexDigitValue(hex1)*4096 + hexDigitValue(hex2)*256 + hexDigitValue(hex3)*16 + hexDigitValue(hex4)
 									// Convert to UTF-8 and write the bytes
-									utf8Bytes := encodeUTF8(value)
-									for _, b := range utf8Bytes {
-										result.WriteByte(b)
+									if isSafeDecoded(value) {
+										result.Write(encodeUTF8(value))
+									} else {
+										result.WriteString("\\u")
+										result.Write([]byte{hex1, hex2, hex3, hex4})
 									}
 									continue
 								}
